@@ -17,6 +17,11 @@ Reading of Python that is ADDED here (together with Model/PyPreludeReadLine.lean
               parameters are `None`): `(← RL.call env.g.G (env.G a1 …))` - the arguments evaluated left to right, then the call: TypeError when the slot
               `G` is `None` (a branch guards ONE slot but may call another: `composite-domain` tests `Strand` and calls `Domain`), else the request.  `Complex(a, None, n)`: the second argument
               must be the literal `None` (only the look-up form is translated).
+  strand-complex   `list(E.sequence)` for a strand object `E`: `(← env.strand_sequence E)` (a request: the domain objects of the strand);
+              `strand_table_to_sequence(st)` (imported from .complex_utils: checked): the parameter `env.strand_table_to_sequence`; `x.replace('a', 'b')` on a
+              token tree: `(← Py.treeReplace x "a" "b")` (AttributeError for a list); `list(x)`: `Py.treeItems x`; `Complex(seq, chars, name = n)` with a
+              second argument that is not the literal `None`: the request `env.ComplexNew seq chars n` (`seq` a list of objects and `'+'` = `none`);
+              `sequence` is a retyped local where it is assigned `strand_table_to_sequence(…)` (stub `retype_by`).
   x == 'lit'     `x` typed `PP.Tree` / `Option PP.Tree`: `Py.treeEqStr x "lit"` / `Py.otreeEqStr` (a list equals no str).
   int(x)         `x` typed `PP.Tree`: `(← Py.treeInt x) : Nat` (decimal digits; TypeError for a list, ValueError otherwise).
   [e for y in x] `x` typed `PP.Tree` (or `Option PP.Tree`: TypeError for `None`): the `FuncTx` comprehension over `Py.treeItems x` (the items of a list,
@@ -49,8 +54,9 @@ READ_LINE = dict(path=PATH, name='read_pil_line',
                  params=[('raw', L(TREE))],
                  locals={'line': L(TREE), 'name': TREE, 'dlen': NAT, 'anon': H, 'sequence': L(H), 'cplxs': L(H),
                          'reactants': O(TREE), 'products': O(TREE), 'rtype': O(TREE), 'rate': O(FLOAT), 'units': O(TREE), 'r': O(STR),
-                         'reactants_2': L(H), 'products_2': L(H)},
-                 retype={'reactants': 'reactants_2', 'products': 'products_2'},
+                         'reactants_2': L(H), 'products_2': L(H), 'st': L(L(H)), 'structure': TREE, 'sequence_2': L(O(H))},
+                 retype={'reactants': 'reactants_2', 'products': 'products_2', 'sequence': 'sequence_2'},
+                 retype_by={'sequence': 'strand_table_to_sequence'},      # `sequence` is retyped only where it is assigned this call
                  extra=[('env', 'RL.Env ω')],
                  exc={'PilFormatError': 'Err.pilFormat'},
                  ret=VAL)
@@ -58,8 +64,17 @@ READ_LINE = dict(path=PATH, name='read_pil_line',
 
 class Retype(ast.NodeTransformer):
     """rule "retyped locals": `x = [… for …]` for a name of `table` starts the new variable `table[x]`"""
-    def __init__(self, table):
+    def __init__(self, table, by=None):
         self.table = table
+        self.by = by or {}
+
+    def starts_new(self, st):
+        if not (isinstance(st, ast.Assign) and len(st.targets) == 1 and isinstance(st.targets[0], ast.Name) and st.targets[0].id in self.table):
+            return False
+        x = st.targets[0].id
+        if x in self.by:
+            return isinstance(st.value, ast.Call) and isinstance(st.value.func, ast.Name) and st.value.func.id == self.by[x]
+        return isinstance(st.value, ast.ListComp)
 
     def block(self, body, m):
         out = []
@@ -74,8 +89,7 @@ class Retype(ast.NodeTransformer):
         return node
 
     def stmt(self, st, m):
-        if isinstance(st, ast.Assign) and len(st.targets) == 1 and isinstance(st.targets[0], ast.Name) and st.targets[0].id in self.table \
-                and isinstance(st.value, ast.ListComp):
+        if self.starts_new(st):
             self.rename(st.value, m)
             m[st.targets[0].id] = self.table[st.targets[0].id]
             st.targets[0].id = self.table[st.targets[0].id]
@@ -95,7 +109,7 @@ class Retype(ast.NodeTransformer):
                 h.body = self.block(h.body, dict(m))
             return st
         if isinstance(st, (ast.For, ast.While, ast.With, ast.FunctionDef)):
-            if any(isinstance(n, ast.Name) and n.id in self.table for n in ast.walk(st)):
+            if any(isinstance(n, ast.Name) and n.id in m for n in ast.walk(st)):      # a variable that WAS renamed before is used inside
                 raise Shape('retyped local inside %s' % type(st).__name__)
             return st
         return self.rename(st, m)
@@ -144,6 +158,21 @@ class ReadLineTx(ReactionTx):
                 if ta != TREE:
                     raise Shape('%s: int() of a %s' % (self.name, ty(ta)))
                 return '(← Py.treeInt %s)' % a, NAT
+            if f == 'list' and len(node.args) == 1 and not node.keywords:
+                g = node.args[0]
+                if isinstance(g, ast.Attribute) and g.attr == 'sequence':           # list(E.sequence) for a strand object E
+                    a, ta = self.ex(g.value)
+                    if ta != H:
+                        raise Shape('%s: .sequence of a %s' % (self.name, ty(ta)))
+                    return '(← env.strand_sequence %s)' % a, L(H)
+                a, ta = self.ex(g)
+                if ta == TREE:                                                      # list(x): the items of a list, the characters of a str
+                    return '(Py.treeItems %s)' % a, L(TREE)
+            if f == 'strand_table_to_sequence' and len(node.args) == 1 and not node.keywords and self.spec.get('_stts_ok'):
+                a, ta = self.ex(node.args[0], L(L(H)))
+                if ta != L(L(H)):
+                    raise Shape('%s: strand_table_to_sequence of a %s' % (self.name, ty(ta)))
+                return '(← env.strand_table_to_sequence %s)' % a, L(O(H))
             if f == '__tree_items__':
                 a, ta = self.ex(node.args[0])
                 if ta == O(TREE):
@@ -158,6 +187,9 @@ class ReadLineTx(ReactionTx):
                 return '(← Gen.py_read_reaction env.RTYPES env.g12 env.strL %s)' % a, RR6
             if self.is_slot(node.func):
                 params = CTOR[f]
+                field = f
+                if f == 'Complex' and len(node.args) >= 2 and not (isinstance(node.args[1], ast.Constant) and node.args[1].value is None):
+                    params, field = [('sequence', L(O(H))), ('structure', L(TREE)), ('name', TREE)], 'ComplexNew'      # Complex(seq, list(structure), name = n)
                 names = [p for p, _ in params]
                 if len(node.args) > len(names) or any(isinstance(a, ast.Starred) for a in node.args):
                     raise Shape('%s: call shape: %s' % (self.name, ast.unparse(node)[:60]))
@@ -183,7 +215,14 @@ class ReadLineTx(ReactionTx):
                         continue
                     c, tc = self.ex(given[q], tq)
                     args.append(self.need(c, tc, tq))
-                return '(← RL.call env.g.%s (env.%s %s))' % (f, f, ' '.join(args)), H
+                return '(← RL.call env.g.%s (env.%s %s))' % (f, field, ' '.join(args)), H
+        if isinstance(node, ast.Call) and isinstance(node.func, ast.Attribute) and node.func.attr == 'replace' and len(node.args) == 2 \
+                and not node.keywords and all(isinstance(a, ast.Constant) and isinstance(a.value, str) for a in node.args):
+            a, ta = self.ex(node.func.value)
+            if ta != TREE:
+                raise Shape('%s: .replace on a %s' % (self.name, ty(ta)))
+            q = lambda v: '"%s"' % v.replace('\\', '\\\\').replace('"', '\\"')
+            return '(← Py.treeReplace %s %s %s)' % (a, q(node.args[0].value), q(node.args[1].value)), TREE
         if isinstance(node, ast.Name) and node.id in SLOTS and self.is_slot(node):
             raise Shape('%s: the slot %s is used other than in `is None` tests and calls' % (self.name, node.id))
         return super().ex(node, expect)
@@ -291,7 +330,8 @@ def gen_pyreadline(repo):
     builtins_unshadowed(tree, {'isinstance', 'int', 'len', 'float', 'str', 'list'})
     info = module_checks(tree)
     rr = [n for n in tree.body if isinstance(n, ast.FunctionDef) and n.name == 'read_reaction']
-    spec = dict(READ_LINE, _log_ok=info['log_ok'], _rr_ok=len(rr) == 1)
+    from pyfunc import imported_from
+    spec = dict(READ_LINE, _log_ok=info['log_ok'], _rr_ok=len(rr) == 1, _stts_ok=imported_from(tree, 'strand_table_to_sequence', 'complex_utils'))
     fn = find_function(tree, spec['name'])
     check_signature(fn, spec)
     if fn.args.defaults or fn.decorator_list:
@@ -305,7 +345,7 @@ def gen_pyreadline(repo):
     if len(k) != 1 or any(isinstance(n, ast.Name) and n.id == 'raw' and isinstance(n.ctx, ast.Store) for n in ast.walk(fn)):
         raise Shape('read_pil_line: the test isinstance(raw, str) is not found exactly once')
     fn.body[k[0]:k[0] + 1] = fn.body[k[0]].orelse
-    fn.body = Retype(spec['retype']).block(fn.body, {})
+    fn.body = Retype(spec['retype'], spec.get('retype_by')).block(fn.body, {})
     last = fn.body[-1]
     if not isinstance(last, ast.If):
         raise Shape('read_pil_line: the last statement is not the if / elif chain')
@@ -315,14 +355,14 @@ def gen_pyreadline(repo):
         try:
             probe.block(copy.deepcopy(node.body), [], '  ', False)
             definite_assignment(ast.FunctionDef(name='b', args=fn.args, body=fn.body[:-1] + copy.deepcopy(node.body), decorator_list=[], lineno=0),
-                                ['raw', 'log', 'float', 'int', 'read_reaction', 'KeyError', 'PilFormatError', 'err', 'str'] + SLOTS, 'read_pil_line')
+                                ['raw', 'log', 'float', 'int', 'read_reaction', 'KeyError', 'PilFormatError', 'err', 'str', 'strand_table_to_sequence'] + SLOTS, 'read_pil_line')
         except Shape as e:
             key = ast.unparse(node.test)[:50]
             untranslated[key] = str(e)
             node.body = [ast.Raise(exc=ast.Call(func=ast.Name(id='__untranslated__', ctx=ast.Load()), args=[ast.Constant(value=str(e)[:90].replace('-/', '- /'))],
                                                 keywords=[]), cause=None)]
     ast.fix_missing_locations(fn)
-    definite_assignment(fn, ['raw', 'log', 'float', 'int', 'read_reaction', 'KeyError', 'PilFormatError', 'err', 'str', '__untranslated__', 'parse_pil_string'] + SLOTS,
+    definite_assignment(fn, ['raw', 'log', 'float', 'int', 'read_reaction', 'KeyError', 'PilFormatError', 'err', 'str', '__untranslated__', 'parse_pil_string', 'strand_table_to_sequence'] + SLOTS,
                         'read_pil_line')
     tx = ReadLineTx(dict(spec, _fn=fn), fn)
     body = tx.run()
